@@ -20,12 +20,26 @@ TEXT = {
     "C03": (E1[0], "Same as C01/C02 for WT and HWT, including values above 2^32/2^64, symbols above max(S) in select, all binary code "
             "shapes up to the bounds and every tie order.", "§4 C03",
             "bounded-exhaustive enumeration of inputs + exhaustive exploration of hash-map tie orders on the real code"),
+    "C05": (E1[0], "Every quaternary sequence of the bounded families (all sequences up to length L, all boundary-straddling shapes) is "
+            "indexed by the real RSQVector256/512 through all three construction paths and every query of the full argument alphabet "
+            "is compared with a Vec<u8> reference.", "§4 C05",
+            "bounded-exhaustive enumeration of inputs x configurations x query arguments on the real code vs. reference model"),
+    "C06": (E1[0], "Every bit vector of the bounded families is indexed by the real RSNarrow and RSWide and every rank/select/get/total "
+            "is compared with a Vec<bool> reference.", "§4 C06",
+            "bounded-exhaustive enumeration of inputs x query arguments on the real code vs. reference model"),
+    "C07": (E1[0], "Every dense/threshold/sparse group sequence up to g groups (and partial last groups), plus all short bit vectors, is "
+            "built into the real DArray<false/true> by every constructor and all select/iterator answers are compared with a Vec<bool> "
+            "reference.", "§4 C07",
+            "bounded-exhaustive enumeration of group-shape histories x configurations on the real code vs. reference model"),
 }
 
 NOTE = {
     "C01": "Trusted: reference model (Vec + occurrence lists), rustc/std, the child-process runner. Bounds: see evidence.coverage.bounds; lengths near 2^43 not reachable.",
     "C02": "Trusted: reference model, the hook's permutation code (add-only, off by default), minimum_redundancy (used only to label code shapes). Known finding KF2 (codes > 32 bits).",
     "C03": "Trusted: reference model, hook permutation code. Known finding KF2 (binary codes > 32 bits).",
+    "C05": "Trusted: reference model (Vec<u8>), runner. Lengths near 2^43 (44-bit counters) not reachable.",
+    "C06": "Trusted: reference model (Vec<bool>), runner.",
+    "C07": "Trusted: reference model (Vec<bool>), runner. Position-list constructors are compared on the vector that ends at the last one.",
 }
 
 
@@ -64,6 +78,8 @@ def main():
         "engines": [
             {"name": "mc_trees", "path": "/verif/mc/src/bin/mc_trees.rs", "serves_properties": ["C01", "C02", "C03"],
              "kind_free_text": "E1 bounded-exhaustive input-space explorer + E3 tie-order choice explorer for the wavelet trees"},
+            {"name": "mc_vectors", "path": "/verif/mc/src/bin/mc_vectors.rs", "serves_properties": ["C05", "C06", "C07"],
+             "kind_free_text": "E1 bounded-exhaustive input-space explorer for RSQVector, RSNarrow/RSWide and DArray"},
         ],
         "checks": checks,
         "not_applicable": na,
